@@ -1,13 +1,23 @@
-"""All translators: name of generated file -> text.  A translator that fails
-contributes nothing here (setup must not fail); the property's own check reports it."""
-from translate import options as tr_options
+"""All translators: name of generated file -> text.  Every harness module
+c<NN>.py may define gen_files() -> {filename: text}.  A translator that fails
+contributes nothing here (setup must not fail); the property's own check
+reports the failure as a broken obligation."""
+import importlib
+import re
+import sys
+from pathlib import Path
+
+HERE = Path(__file__).resolve().parent
 
 
 def all_gen_files():
     out = {}
-    for name, fn in [("Options.v", tr_options.translate)]:
+    for p in sorted(HERE.glob("c[0-9][0-9].py")):
         try:
-            out[name] = fn("/repo")
+            mod = importlib.import_module(p.stem)
+            fn = getattr(mod, "gen_files", None)
+            if fn is not None:
+                out.update(fn())
         except Exception as ex:  # noqa
-            print(f"translator for {name} failed: {ex}")
+            print(f"gen_files of {p.name} failed: {ex}", file=sys.stderr)
     return out
